@@ -3,7 +3,7 @@ from __future__ import annotations
 
 from sa import terms as T
 from sa.core import AnalysisError
-from sa.rules.common import effects, call_head, guard_literals, kwarg
+from sa.rules.common import effects, call_head, guard_literals, kwarg, split_alternatives, implied_by
 from sa.symalg import Poly, to_poly, denominators
 from sa.terms import tag, C
 
@@ -52,7 +52,11 @@ def nan_safe(ctx, rule='C19-R1'):
     conv = [e for e in evs if e.kind == 'call' and call_head(e) == f'{MOD}.convert_kwargs']
     allnan = ('call', ('g', 'numpy.all'), (('call', ('g', 'numpy.isnan'), (V,), ()),), ())
     ok = bool(conv) and all(T.mk_not(allnan) in guard_literals(e.guard) for e in conv)
-    rets = [e for e in evs if e.kind == 'return' and allnan in guard_literals(e.guard) and e.value == V]
+    # under "all NaN" the exits that hand the input back must cover everything: substitute the condition by True in
+    # their guards and take the union
+    rets = [e for e in evs if e.kind == 'return' and not e.ctx and e.value == V]
+    cover = T.mk_or([T.subst(e.guard, {allnan: T.TRUE}) for e in rets]) if rets else T.FALSE
+    rets = rets if cover == T.TRUE else []
     ctx.check(ok and bool(rets), rule, q, f.node.name, f.loc(),
               'an all-NaN input is not passed through before the scaling parameters are derived from the data '
               '(nanmax of nothing)', instance='apply_scaling: all-NaN passthrough dominates convert_kwargs')
@@ -67,7 +71,7 @@ def nan_safe(ctx, rule='C19-R1'):
 
 def _exprs(fx, q, rule):
     """(do expression, undo expression, events) for a scaling routine."""
-    evs = fx.deep_events(q)
+    evs = split_alternatives(fx.deep_events(q))
     do = [e for e in evs if e.kind in ('return', 'store') and MODE_DO in guard_literals(e.guard)
           and not T.is_const(e.value)]
     undo = [e for e in evs if e.kind in ('return', 'store') and MODE_UNDO in guard_literals(e.guard)
@@ -182,12 +186,134 @@ def minrange(ctx, rule='C19-R4'):
     # convert_kwargs derives min/max through it, and the shift with nanmax
     cq = f'{MOD}.convert_kwargs'
     cf = p.func(cq, rule)
-    calls = [e for e in fx.own_events(cq) if e.kind == 'call' and call_head(e) == q]
+    calls = [e for e in fx.deep_events(cq) if e.kind == 'call' and call_head(e) == q]
     ok = bool(calls) and all(e.call[2][:1] == (V,) for e in calls)
     ctx.check(ok, rule, cq, cf.node.name, cf.loc(), 'min-max parameters are not derived by minrange2minmax(vals, min_range)',
               instance='convert_kwargs: (min_val, max_val) = minrange2minmax(vals, min_range)')
-    shifts = [e for e in fx.own_events(cq) if e.kind == 'store' and T.contains(e.target, lambda x: x == 'shift' or
+    shifts = [e for e in fx.deep_events(cq) if e.kind == 'store' and T.contains(e.target, lambda x: x == 'shift' or
               (tag(x) == 'col' and x[2] == 'shift'))]
     ok = bool(shifts) and all(e.value == mx for e in shifts)
     ctx.check(ok, rule, cq, cf.node.name, cf.loc(), 'the default shift is not nanmax(vals)',
               instance='convert_kwargs: shift = nanmax(vals)')
+
+
+# ---------------------------------------------------------------------------------------------- C19-R6
+def _edges(cond, rule, q):
+    """(lower edge term, lower closed?, upper edge term, upper closed?) of a segment condition on the data."""
+    lits = cond[1] if tag(cond) == 'and' else (cond,)
+    lo = hi = None
+    for c in lits:
+        if tag(c) != 'cmp' or c[1] not in ('le', 'lt'):
+            raise AnalysisError(rule, f'{q}: segment condition is not a pair of order comparisons ({T.show(c, maxlen=120)})')
+        if c[3] == V and c[2] != V:
+            lo = (c[2], c[1] == 'le')
+        elif c[2] == V and c[3] != V:
+            hi = (c[3], c[1] == 'le')
+        else:
+            raise AnalysisError(rule, f'{q}: comparison does not bound the data ({T.show(c, maxlen=120)})')
+    if lo is None or hi is None:
+        raise AnalysisError(rule, f'{q}: segment condition lacks a lower or an upper edge')
+    return lo[0], lo[1], hi[0], hi[1]
+
+
+def step_continuity(ctx, rule='C19-R6', max_steps=5):
+    """Step scaling, for every number of step edges 0..max_steps with the edges and scales left symbolic:
+    the segments tile the real line (first from -inf, each upper edge the next lower edge, last to +inf, half-open
+    the same way everywhere), the forward map takes the same value on both sides of every edge (continuity),
+    and the segments of the inverse are the images of the forward segments (edges_out == do(edges_in))."""
+    from sa.shapeval import ShapeEval, ShapeError, Seq, atom, INF
+    fx = effects(ctx)
+    p = ctx.project
+    q = f'{MOD}.step_scale'
+    f = p.func(q, rule)
+    ctx.saw(f)
+    de, ue = _exprs(fx, q, rule)
+    loops = fx.deep_loops(q)
+    for e in (de, ue):
+        if e.kind != 'store' or tag(e.target) != 'mask':
+            raise AnalysisError(rule, f'{q}: the scaled values are not written segment by segment (out[cond] = ...)')
+    lids = {x[1] for e in (de, ue) for x in T.walk(e.value) if tag(x) == 'lv'}
+    if len(lids) != 1:
+        raise AnalysisError(rule, f'{q}: segment loop not identified ({sorted(lids)})')
+    lid = lids.pop()
+    loop = loops[lid]
+    dlo, dlc, dhi, dhc = _edges(de.target[2], rule, q)
+    ulo, ulc, uhi, uhc = _edges(ue.target[2], rule, q)
+    # half-open the same way on every segment: no value lost, none written twice with a different formula
+    for nm, (lc, hc), e in (('do', (dlc, dhc), de), ('undo', (ulc, uhc), ue)):
+        ctx.check(lc != hc, rule, q, e.node, e.loc(),
+                  f'{nm}: segments are {"closed" if lc else "open"} below and {"closed" if hc else "open"} above: a value '
+                  'equal to a step edge ' + ('belongs to two segments' if lc else 'belongs to no segment and stays NaN'),
+                  instance=f'step_scale[{nm}]: segments half-open the same way')
+    nchecked = 0
+    for n in range(0, max_steps + 1):
+        steps = Seq('L', [atom(f's{i}') for i in range(n)])
+        scales = Seq('L', [atom(f'c{i}') for i in range(n + 1)])
+        env = {('p', 'steps'): steps, ('p', 'scales'): scales}
+
+        def ev_at(sid, term, x=None):
+            it = ShapeEval(rule, env).ev(loop.iter)
+            lv = {('lv', lid, 'idx'): Poly.const(sid)}
+            if loop.kind == 'enumerate':
+                if sid >= len(it):
+                    raise ShapeError(f'segment {sid} of {len(it)}')
+                lv[('lv', lid, 'elem')] = it.items[sid]
+            else:
+                lv = {('lv', lid, 'elem'): it.items[sid]}
+            sev = ShapeEval(rule, env, lv, var=V)
+            val = sev.ev(term)
+            if x is not None and isinstance(val, Poly):
+                a, b = val.coef_of_name('v')
+                val = a * x + b
+            return val
+
+        try:
+            nseg = len(ShapeEval(rule, env).ev(loop.iter))
+            if nseg != n + 1:
+                ctx.violation(rule, q, loop.node, f.loc(), f'{n} step edge(s) need {n + 1} segments, the loop visits {nseg}',
+                              instance=f'step_scale: n={n}: number of segments')
+                continue
+            for nm, (lo_t, hi_t), e in (('do', (dlo, dhi), de), ('undo', (ulo, uhi), ue)):
+                los = [ev_at(s, lo_t) for s in range(nseg)]
+                his = [ev_at(s, hi_t) for s in range(nseg)]
+                tiles = los[0] == -INF and his[-1] == INF and all(his[s] == los[s + 1] for s in range(nseg - 1))
+                nchecked += 1
+                ctx.check(tiles, rule, q, e.node, e.loc(),
+                          f'{nm}, {n} step edge(s): the segments do not tile the real line: lower edges '
+                          f'[{", ".join(x.show() for x in los)}], upper edges [{", ".join(x.show() for x in his)}]',
+                          instance=f'step_scale[{nm}] n={n}: segments tile (-inf, inf)')
+            # continuity of the forward map and agreement of the inverse edges
+            in_lo = [ev_at(s, dlo) for s in range(nseg)]
+            in_hi = [ev_at(s, dhi) for s in range(nseg)]
+            out_lo = [ev_at(s, ulo) for s in range(nseg)]
+            for s in range(nseg - 1):
+                left = ev_at(s, de.value, in_hi[s])
+                right = ev_at(s + 1, de.value, in_lo[s + 1])
+                nchecked += 1
+                ctx.check(left == right, rule, q, de.node, de.loc(),
+                          f'{n} step edge(s): the forward map jumps at edge {s}: {left.show()} from below, '
+                          f'{right.show()} from above', instance=f'step_scale n={n}: continuous at edge {s}')
+                nchecked += 1
+                ctx.check(out_lo[s + 1] == right, rule, q, ue.node, ue.loc(),
+                          f'{n} step edge(s): the inverse switches segment at {out_lo[s + 1].show()}, the image of input '
+                          f'edge {s} is {right.show()}: values between the two are un-scaled with the wrong segment',
+                          instance=f'step_scale n={n}: inverse edge {s} is the image of the input edge')
+            # every segment: undo(do(v)) == v with the concrete offsets (R2 does it on the symbolic form)
+            for s in range(nseg):
+                fw = ev_at(s, de.value)
+                a, b = fw.coef_of_name('v')
+                back = ev_at(s, ue.value, fw)
+                nchecked += 1
+                ctx.check(back == atom('v'), rule, q, ue.node, ue.loc(),
+                          f'{n} step edge(s), segment {s}: undo(do(v)) = {back.show()}',
+                          instance=f'step_scale n={n}: segment {s} undo(do(v)) == v')
+                mono = a.is_monomial() and all(ex == -1 for _, ex in list(a.d)[0]) and list(a.d.values())[0] > 0
+                ctx.check(mono, rule, q, de.node, de.loc(),
+                          f'{n} step edge(s), segment {s}: forward slope is {a.show()}, expected 1 / (positive scale)',
+                          instance=f'step_scale n={n}: segment {s} increasing')
+        except ShapeError as err:
+            ctx.violation(rule, q, de.node, de.loc(), f'with {n} step edge(s) the computation is ill-formed: {err}',
+                          instance=f'step_scale n={n}: well-formed')
+    ctx.floor(rule, 'edge / segment obligations of step_scale', nchecked, 40)
+    ctx.tables['step_scale_instantiation'] = {'step_counts': list(range(max_steps + 1)), 'obligations': nchecked,
+                                              'domain': 'Laurent polynomials over s_i (edges), c_i (scales), v'}
